@@ -230,6 +230,7 @@ class CallMixin:
             return
         if e == 'world':
             wk = self.world_keys()
+            pre_world = st.copy() if self.c.worldrelies else None
             import tokens as _tk
             if not hasattr(self, 'token_rules'): self.token_rules = _tk.parse_rules(self)
             stable = {}
@@ -251,6 +252,10 @@ class CallMixin:
                 else: continue
                 fact = Implies(o != 0, n != 0) if r.kind == 'nonzero' else (n >= o)
                 st.assume(z3.ForAll([x], fact, patterns=[n]))
+            for txt, ast, src in self.c.worldrelies:
+                self.assumptions.add('worldrely (assumed of callbacks and other goroutines): %s' % txt)
+                oe = {'st': pre_world, 'old': None, 'vars': {}, 'fr': None}
+                st.assume(self.ev_bool(ast, {'st': st, 'old': oe, 'vars': {}, 'fr': None}))
             return
         root = e.split('.')[0].split('[')[0]
         if root in oldenv['vars']:
@@ -259,6 +264,11 @@ class CallMixin:
                 st.havoc_at(key, idx)
             return
         for key in self.mod_entry_keys(e, g, c):
+            if key == 'mem:*':
+                for k2 in list(st.sorts):
+                    if k2.startswith('mem:'): st.havoc(k2)
+                st.fresh_on_create.add('mem:*')
+                continue
             st.havoc(key)
 
     # ------------------------------------------------------------------ rely (interference on shared atomics)
@@ -268,7 +278,10 @@ class CallMixin:
         top = fr
         while top.parent is not None: top = top.parent
         c = top.contract
-        if c is None or not c.relies: return
+        if c is None or not c.relies:
+            self.assumptions.add('no interference modelled on atomic word %s in %s (value assumed unchanged between this thread\'s own accesses)' % (loc.key, self.cur))
+            return
+        matched = False
         for ent, rel, txt in c.relies:
             m = re.match(r'([\w.]+)(?:\[(\w+)\])?$', ent)
             if not m: raise Unsupported('bad rely entry %r' % ent)
@@ -280,12 +293,15 @@ class CallMixin:
                 if len(loc.idx) < 2: continue
                 cur = z3.simplify(loc.idx[1])
                 if not (z3.is_int_value(cur) and cur.as_long() == kv): continue
+            matched = True
             was = self.load_loc(st, loc, facts=False)
             now = self.fresh(st, loc.t, 'rely')
-            env = {'st': st, 'old': None, 'vars': {'was': (was, loc.t), 'now': (now, loc.t)}, 'fr': fr}
+            env = {'st': st, 'old': None, 'vars': {'was': (was, loc.t), 'now': (now, loc.t)}, 'fr': top}
             st.assume(self.ev_bool(rel, env))
             for (cn, srt), x in zip(self.leaves(loc.t), self.comps(now)):
                 st.wr(loc.key + cn, loc.idx, x, srt, log=False)
+        if not matched:
+            self.assumptions.add('no interference modelled on atomic word %s in %s (value assumed unchanged between this thread\'s own accesses)' % (loc.key, self.cur))
 
     # ------------------------------------------------------------------ builtins
     def builtin(self, fr, st, ins, site, name, args, cont):
@@ -402,6 +418,11 @@ class CallMixin:
         ets = d['elems']
         choices = list(range(len(states)))
         if not ins['blocking']: choices.append(-1)
+        # a send case is an *attempt* to send: its ghost event and channel invariant are checked once, whatever the outcome
+        for si, sst in enumerate(states):
+            if sst['dir'] != 2:
+                ch = self.val(sst['chan'], fr, st)
+                self.chan_hook(fr, st, 'send', ch, ins, site, operand=sst['chan'], sidx=si, value=self.val(sst['send'], fr, st))
         for ci in choices:
             s2 = st.copy()
             f2 = fr.fork()
@@ -418,9 +439,6 @@ class CallMixin:
                     else:
                         v = self.zero(ets[ri])
                     vals.append(v); ri += 1
-                elif si == ci:
-                    ch = self.val(sst['chan'], f2, s2)
-                    self.chan_hook(f2, s2, 'send', ch, ins, site, operand=sst['chan'], sidx=si, value=self.val(sst['send'], f2, s2))
             s2.trace.append(('select case %d' % ci, -1))
             cont(s2, TupleV(vals))
 
